@@ -552,6 +552,27 @@ func cmdLexTrace(a args) {
 		}
 		inputs = append(inputs, corpusInputs(extra)...)
 	}
+	// programs generated by TLC (GenProg token lists: statement sequences, planted programs, ...) as texts
+	for _, f := range strings.Split(a.str("programs", ""), ",") {
+		if f == "" {
+			continue
+		}
+		forEachTagged(f, "CASE", func(p []byte) {
+			var c progCase
+			if err := json.Unmarshal(p, &c); err != nil {
+				fatal("bad case", err)
+			}
+			text, _ := renderTokens(c.Toks, len(inputs)%2, rng)
+			inputs = append(inputs, text)
+		})
+	}
+	// numeric literals at the edges of 63 / 64 bits and of float64, in both bases
+	for _, lx := range []string{"9223372036854775807", "9223372036854775808", "18446744073709551615", "18446744073709551616",
+		"0x7fffffffffffffff", "0xffffffffffffffff", "0x10000000000000000", "0x1ffffffffffffffff", "0X00000000000000000000001",
+		"1e308", "1e309", "4e-400", "9007199254740993", "0.1234567890123456789012345678901234567890", "123456789012345678901234567890.5"} {
+		inputs = append(inputs, lx, "T | where a == "+lx+";"+lx)
+	}
+	count += len(inputs)
 	for len(inputs) < count {
 		inputs = append(inputs, randomLexInput(rng))
 	}
@@ -600,9 +621,9 @@ func corpusInputs(dir string) []string {
 }
 
 type lexVerdict struct {
-	ID   int    `json:"id"`
-	OK   bool   `json:"ok"`
-	Toks []mTok `json:"toks"`
+	ID   int      `json:"id"`
+	OK   bool     `json:"ok"`
+	Toks []mTok   `json:"toks"`
 	Pcs  [][2]int `json:"pieces"`
 }
 
@@ -631,39 +652,42 @@ func cmdLexTraceCheck(a args) {
 		inputs[rec.ID] = string(raw)
 	}
 	rejected := 0
-	n := forEachTagged(a.str("verdicts", ""), "TV", func(p []byte) {
-		var v lexVerdict
-		if err := json.Unmarshal(p, &v); err != nil {
-			fatal("bad verdict", err, string(p))
-		}
-		text, ok := inputs[v.ID]
-		if !ok {
-			fatal("verdict for unknown id", v.ID)
-		}
-		res.Cases++
-		res.Evaluations++
-		if len(v.Toks) > 1 {
-			res.Nontrivial++
-		}
-		if !v.OK {
-			rejected++
-		}
-		src, offs, chars := classify(text)
-		exp := expectedTokens(v.Toks, offs, chars)
-		var pcs [][2]int
-		for _, e := range v.Pcs {
-			pcs = append(pcs, [2]int{offs[e[0]], offs[e[1]]})
-		}
-		if res.Cases%397 == 1 {
-			res.sample(map[string]any{"text": text, "classes": src, "spec_tokens": exp, "accepted_by_TLC": v.OK})
-		}
-		before := res.NViolations
-		checkLexOne(res, prop, text, exp, pcs, map[string]any{"classes": src, "trace_id": v.ID})
-		if prop == "C09" && !v.OK && res.NViolations == before {
-			// TLC rejected kinds/extents but the concrete comparison agrees: harness bug
-			fatal("TLC rejected trace record but concrete comparison accepts it", v.ID, text)
-		}
-	})
+	n := 0
+	for _, vf := range strings.Split(a.str("verdicts", ""), ",") {
+		n += forEachTagged(vf, "TV", func(p []byte) {
+			var v lexVerdict
+			if err := json.Unmarshal(p, &v); err != nil {
+				fatal("bad verdict", err, string(p))
+			}
+			text, ok := inputs[v.ID]
+			if !ok {
+				fatal("verdict for unknown id", v.ID)
+			}
+			res.Cases++
+			res.Evaluations++
+			if len(v.Toks) > 1 {
+				res.Nontrivial++
+			}
+			if !v.OK {
+				rejected++
+			}
+			src, offs, chars := classify(text)
+			exp := expectedTokens(v.Toks, offs, chars)
+			var pcs [][2]int
+			for _, e := range v.Pcs {
+				pcs = append(pcs, [2]int{offs[e[0]], offs[e[1]]})
+			}
+			if res.Cases%397 == 1 {
+				res.sample(map[string]any{"text": text, "classes": src, "spec_tokens": exp, "accepted_by_TLC": v.OK})
+			}
+			before := res.NViolations
+			checkLexOne(res, prop, text, exp, pcs, map[string]any{"classes": src, "trace_id": v.ID})
+			if prop == "C09" && !v.OK && res.NViolations == before {
+				// TLC rejected kinds/extents but the concrete comparison agrees: harness bug
+				fatal("TLC rejected trace record but concrete comparison accepts it", v.ID, text)
+			}
+		})
+	}
 	if n != len(inputs) {
 		fatal(fmt.Sprintf("TLC answered %d of %d trace records", n, len(inputs)))
 	}
